@@ -25,6 +25,9 @@ var lossyFuncs = map[string]bool{
 	"strings.Replace": true, "strings.ReplaceAll": true, "strings.Fields": true, "strings.Map": true,
 	"bytes.TrimSpace": true, "bytes.Trim": true, "bytes.ToLower": true, "bytes.ToUpper": true,
 	"encoding/xml.EscapeText": true, "encoding/xml.Escape": true, "html.EscapeString": true, "net/url.QueryEscape": true,
+	// an address written without its resourcepart (or without its localpart)
+	// is decoded as a different address
+	"jid.JID.Bare": true, "jid.JID.Domain": true,
 }
 
 // lossyEmission (E-taint): in the encoders (TokenReader, Wrap, WriteXML,
@@ -41,6 +44,9 @@ func lossyEmission(c *cx, id string, in func(f *eng.Fn) bool) int {
 			if x.Obj != nil {
 				switch x.Obj.Name() {
 				case "TokenReader", "Wrap", "WriteXML", "MarshalXML", "MarshalXMLAttr", "StartElement":
+					return in(x)
+				}
+				if strings.HasPrefix(x.Obj.Name(), "Marshal") {
 					return in(x)
 				}
 				return false
